@@ -6,7 +6,19 @@ def decode(frames, width):
     """little-endian signed integers, `width` bytes each; None if the byte string does not hold whole samples"""
     if len(frames) % width:
         return None
-    return [int.from_bytes(frames[i:i + width], "little", signed=True) for i in range(0, len(frames), width)]
+    code = {1: "b", 2: "h", 4: "i"}.get(width)
+    if code is None:
+        return [int.from_bytes(frames[i:i + width], "little", signed=True) for i in range(0, len(frames), width)]
+    import array
+    import sys
+
+    a = array.array(code)
+    if a.itemsize != width:  # exotic platform: fall back to the slow, obviously right way
+        return [int.from_bytes(frames[i:i + width], "little", signed=True) for i in range(0, len(frames), width)]
+    a.frombytes(bytes(frames))
+    if sys.byteorder != "little":
+        a.byteswap()
+    return a.tolist()
 
 
 def encode(samples, width):
